@@ -4,9 +4,9 @@
    quantified; sensor_valid_statuses / sensor_status_width are regenerated from the source on every run. *)
 From Coq Require Import ZArith QArith List Bool String.
 From KV Require Import Base.Sx Base.Str Gen.Generated Model.Interp Model.SensorCache Model.SensorWild Model.SensorVirt
-  Model.SensorKeep Model.SensorTmpl Model.SensorApi Model.SensorFill Model.SensorV4
+  Model.SensorKeep Model.SensorTmpl Model.SensorApi Model.SensorFill Model.SensorV4 Model.SensorNum
   Proofs.InterpP Proofs.SensorCacheP Proofs.SensorWildP Proofs.SensorVirtP
-  Proofs.SensorKeepP Proofs.SensorTmplP Proofs.SensorApiP Proofs.SensorFillP Proofs.SensorShapeP Proofs.SensorV4P.
+  Proofs.SensorKeepP Proofs.SensorTmplP Proofs.SensorApiP Proofs.SensorFillP Proofs.SensorShapeP Proofs.SensorV4P Proofs.SensorNumP.
 Import ListNotations.
 Open Scope Q_scope.
 
@@ -800,3 +800,202 @@ Theorem C12_v4_applied_example :
   v4_applied true 100 2 [] ts = XErr /\ v4_applied true 100 2 ups [] = XErr.
 Proof. exact v4_example. Qed.
 Print Assumptions C12_v4_applied_example.
+
+(* ================================================================== extension round 2: Model/SensorNum.v *)
+
+(* The dtype of a numeric read.  Whatever the dtype of the samples (float, int, bool), the properties and the dump
+   grid: a numeric result is FLOAT64 with one value per dump (np.interp's result is returned as it is - the translator
+   finds no cast after it: sensor_numeric_cast = ""). *)
+Theorem C12_numeric_result_is_float : forall g ts p dt l,
+  extract_t g ts p = TNum dt l -> dt = DFloat /\ List.length l = List.length ts.
+Proof. exact extract_t_float. Qed.
+Print Assumptions C12_numeric_result_is_float.
+
+(* int / bool / float samples read numerically (categorical=False, or the default for floats): the EXACT interpolated
+   value at every dump - not rounded or truncated to the dtype of the samples. *)
+Theorem C12_numeric_int_bool_exact : forall g ts p,
+  usable g p <> [] -> decide_cat p (g_dtype g) = false -> interp_accepts (g_dtype g) = true ->
+  extract_t g ts p = TNum DFloat (map (fun x => Some (interp_d (nodes_of (usable g p)) x)) ts).
+Proof. exact extract_t_numeric. Qed.
+Print Assumptions C12_numeric_int_bool_exact.
+
+(* The typed extraction refines the one of the core model (every earlier theorem applies to it). *)
+Theorem C12_numeric_refines_core : forall g ts p,
+  g_dtype g <> DBool -> erase (extract_t g ts p) = extract_sensor g ts p.
+Proof. exact extract_t_refines. Qed.
+Print Assumptions C12_numeric_refines_core.
+
+(* Without a `categorical` property a sensor with usable samples is numeric iff its samples are floats; a string /
+   object sensor forced numeric is an error, never data. *)
+Theorem C12_numeric_default_and_errors :
+  (forall g ts p, usable g p <> [] -> p_cat p = None ->
+     ((exists l, extract_t g ts p = TNum DFloat l) <-> g_dtype g = DFloat)) /\
+  (forall g ts p, usable g p <> [] -> p_cat p = Some false -> (g_dtype g = DStr \/ g_dtype g = DObj) ->
+     extract_t g ts p = TErr).
+Proof. exact (conj extract_t_categorical_default extract_t_str_numeric). Qed.
+Print Assumptions C12_numeric_default_and_errors.
+
+Theorem C12_numeric_examples :
+  (extract_t (mkG DInt false [mkS 0 0 ""; mkS 4 1 ""]) [1; 2; 4; 5] (mkP None (Some false) None)
+   = TNum DFloat [Some ((1 - 0) / (4 - 0) * (1 - 0) + 0); Some ((1 - 0) / (4 - 0) * (2 - 0) + 0); Some 1; Some 1]) /\
+  (extract_t (mkG DBool false [mkS 0 0 ""; mkS 2 1 ""]) [1] (mkP None (Some false) None)
+   = TNum DFloat [Some ((1 - 0) / (2 - 0) * (1 - 0) + 0)] /\ (1 - 0) / (2 - 0) * (1 - 0) + 0 == 1 # 2).
+Proof. exact (conj int_not_truncated bool_numeric). Qed.
+Print Assumptions C12_numeric_examples.
+
+(* initial_value must NOT act on a sensor that has usable samples: the extraction result is the same whatever
+   initial value (of whatever type) is given ... *)
+Theorem C12_initial_value_inert : forall g ts p iv,
+  usable g p <> [] ->
+  extract_t g ts (with_init p iv) = extract_t g ts p /\
+  extract_sensor g ts (with_init p iv) = extract_sensor g ts p.
+Proof. exact initial_value_inert. Qed.
+Print Assumptions C12_initial_value_inert.
+
+(* ... and through the cache: the first read with an initial_value keyword returns the same values, caches the same
+   full-length array and leaves the same raw samples as the read without it. *)
+Theorem C12_initial_value_inert_get : forall vf fuel c name gid g select kw iv,
+  r_lookup name (c_raw c) = Some (ERaw gid) -> nth_error (c_store c) gid = Some g ->
+  usable g (fst (get_props name (c_props c) kw)) <> [] ->
+  let '(c1, r1) := get vf false fuel c name select true (with_init kw iv) in
+  let '(c2, r2) := get vf false fuel c name select true kw in
+  r1 = r2 /\ r_lookup name (c_raw c1) = r_lookup name (c_raw c2) /\ c_store c1 = c_store c2.
+Proof. exact get_initial_value_inert. Qed.
+Print Assumptions C12_initial_value_inert_get.
+
+(* Non-vacuity and the other side: before the first sample the FIRST SAMPLE is held (not the initial value); the
+   initial value appears only when nothing is usable, else NaN / -1. *)
+Theorem C12_initial_value_examples :
+  (extract_t (mkG DFloat false [mkS 4 10 ""; mkS 8 20 ""]) [0; 2; 4] (mkP None None (Some (IVFloat 99)))
+   = TNum DFloat [Some 10; Some 10; Some ((20 - 10) / (8 - 4) * (4 - 4) + 10)]) /\
+  (extract_t (mkG DFloat true [mkS 4 10 "failure"]) [0; 2] (mkP None None (Some (IVFloat 99))) = TNum DFloat [Some 99; Some 99]
+   /\ extract_t (mkG DFloat true [mkS 4 10 "failure"]) [0; 2] p_empty = TNum DFloat [None; None]
+   /\ extract_t (mkG DInt true [mkS 4 10 "failure"]) [0; 2] (mkP None (Some false) None)
+      = TNum DFloat [Some (inject_Z (-1)); Some (inject_Z (-1))]).
+Proof. exact (conj initial_value_not_before_first_sample initial_value_only_for_dummy). Qed.
+Print Assumptions C12_initial_value_examples.
+
+(* time_offset is a shift of the time axis: the clean-up commutes with it, and the value read at dump time x with
+   offset o is the value the unshifted sensor has at x - o. *)
+Theorem C12_offset_is_time_shift :
+  (forall hs o l, clean hs (shift o l) = shift o (clean hs l)) /\
+  (forall hs o l x, interp_d (nodes_of (clean hs (shift o l))) x == interp_d (nodes_of (clean hs l)) (x - o)).
+Proof. exact (conj clean_shift offset_is_time_shift). Qed.
+Print Assumptions C12_offset_is_time_shift.
+
+(* Interpolation never overshoots: every value lies between the smallest and the largest sample value (any node
+   list) - a bool sensor read numerically stays within [0, 1]. *)
+Theorem C12_interp_bounds : forall lo hi nodes x, nodes <> [] ->
+  Forall (fun n => lo <= snd n <= hi) nodes -> lo <= interp_d nodes x <= hi.
+Proof. exact interp_bounds. Qed.
+Print Assumptions C12_interp_bounds.
+
+(* A linear conversion of the values commutes with the interpolation (deg -> rad of the samples, then interpolate =
+   interpolate, then convert). *)
+Theorem C12_interp_scale : forall c l x, interp_d (scale_nodes c l) x == c * interp_d l x.
+Proof. exact interp_scale. Qed.
+Print Assumptions C12_interp_scale.
+
+(* The arithmetic virtual sensors INSIDE the model (exact rationals, pi = the float64 constant; the float64 result of
+   the code differs by at most the roundings of pi / 180 and of one product).  From the source at every run: the
+   conversion function, the name test and the real source sensor of az / el in every format module. *)
+Theorem C12_azel_sources :
+  azel_sources = [("h5datav1", ("Antennas/{ant}/pos_actual_scan_azim", "Antennas/{ant}/pos_actual_scan_elev"));
+                  ("h5datav2", ("Antennas/{ant}/pos.actual-scan-azim", "Antennas/{ant}/pos.actual-scan-elev"));
+                  ("h5datav3", ("Antennas/{ant}/pos_actual_scan_azim", "Antennas/{ant}/pos_actual_scan_elev"));
+                  ("visdatav4", ("{ant}_pos_actual_scan_azim", "{ant}_pos_actual_scan_elev"))]%string
+  /\ azel_convert = "deg2rad"%string /\ azel_az_suffix = "az"%string
+  /\ azel_pick "Antennas/m000/az" "AZ" "EL" = "AZ"%string /\ azel_pick "Antennas/m000/el" "AZ" "EL" = "EL"%string.
+Proof. exact azel_sources_table. Qed.
+Print Assumptions C12_azel_sources.
+
+Theorem C12_deg2rad :
+  (forall x, azel_conv_q x = deg2rad_q x) /\
+  (3141592653589793 # 1000000000000000 < pi64 /\ pi64 < 3141592653589794 # 1000000000000000) /\
+  (deg2rad_q 0 == 0 /\ deg2rad_q 180 == pi64 /\ deg2rad_q 90 == pi64 / 2 /\
+   (forall a b, deg2rad_q (a + b) == deg2rad_q a + deg2rad_q b) /\
+   (forall k a, deg2rad_q (k * a) == k * deg2rad_q a) /\
+   (forall a b, a < b -> deg2rad_q a < deg2rad_q b) /\
+   (forall a b, deg2rad_q a == deg2rad_q b -> a == b) /\
+   (forall x, rad2deg_q (deg2rad_q x) == x)).
+Proof. exact (conj azel_is_deg2rad (conj pi64_bounds deg2rad_laws)). Qed.
+Print Assumptions C12_deg2rad.
+
+(* az / el read through the cache: deg2rad of the cached source AT EVERY DUMP (NaN stays NaN), restricted to the
+   selection when selected, cached full-length under the requested name; the cached source array and the raw samples
+   are what they were.  mjd: t / 86400 + 40587 of every dump. *)
+Theorem C12_azel_read : forall fuel c name src l select kw,
+  r_lookup name (c_raw c) = None -> name <> src ->
+  find (fun v => mem_string name (v_names v)) (c_virt c) = Some (mkV [name] [src] fid_azel) ->
+  r_lookup src (c_raw c) = Some (EVals l) -> List.length l = List.length (c_ts c) ->
+  let full := map (option_map deg2rad_q) l in
+  let '(c', r) := get arith_vf false (S fuel) c name select true kw in
+  r = RVals (if select then select_mask (c_keep c) full else full) /\
+  r_lookup name (c_raw c') = Some (EVals full) /\
+  r_lookup src (c_raw c') = Some (EVals l) /\ c_store c' = c_store c.
+Proof. exact azel_read. Qed.
+Print Assumptions C12_azel_read.
+
+Theorem C12_arith_functions :
+  (forall k vals ts, arith_vf fid_mjd k vals ts = map (fun t => Some (mjd_q t)) ts) /\
+  (forall k src ts, List.length src = List.length ts -> arith_vf fid_azel k [src] ts = map (option_map deg2rad_q) src).
+Proof. exact (conj arith_vf_mjd arith_vf_azel). Qed.
+Print Assumptions C12_arith_functions.
+
+Theorem C12_azel_example :
+  let c := mkC [("m/azim"%string, EVals [Some 180; None; Some (-90)])] [0; 1; 2] [true; false; true] []
+               [mkV ["m/az"%string] ["m/azim"%string] fid_azel] [] in
+  snd (get arith_vf false 2 c "m/az"%string true true p_empty)
+  = RVals [Some (180 * (pi64 / 180)); Some (-90 * (pi64 / 180))].
+Proof. exact azel_example. Qed.
+Print Assumptions C12_azel_example.
+
+(* A VIRTUAL SENSOR NEVER ALTERS ITS SOURCE SENSORS (nor any other cached sensor), over all read histories, with the
+   cached arrays as state: `run_v vf ipv` is the history machine in which a virtual sensor function that works in
+   place overwrites the cached array of its source; `virtual_ipv` is regenerated from the source (true iff the
+   translator finds an in-place write on an array obtained from the cache in a registered function).  For the code as
+   it is: every cached array no virtual sensor produces is unchanged after ANY history of reads and selection changes,
+   the raw samples are unchanged, and reading it again gives it restricted to the current selection. *)
+Theorem C12_virtual_preserves_sources : forall vf name l ops c,
+  r_lookup name (c_raw c) = Some (EVals l) -> no_producer name c -> forallb is_read ops = true ->
+  let c' := fst (run_v vf virtual_ipv c ops) in
+  r_lookup name (c_raw c') = Some (EVals l) /\ c_store c' = c_store c /\
+  forall fuel s, get vf false fuel c' name s true p_empty = (c', RVals (if s then select_mask (c_keep c') l else l)).
+Proof. exact virtual_preserves_sources_code. Qed.
+Print Assumptions C12_virtual_preserves_sources.
+
+Theorem C12_virtual_no_inplace_shape :
+  virtual_ipv = false /\ virtual_inplace_writes = 0%Z /\ (0 < virtual_functions_checked)%Z.
+Proof. exact virtual_ipv_false. Qed.
+Print Assumptions C12_virtual_no_inplace_shape.
+
+(* the faithful machine is the cache model of the earlier theorems *)
+Theorem C12_run_v_faithful : forall vf ops c, run_v vf false c ops = run_ops vf false c ops.
+Proof. exact run_v_faithful. Qed.
+Print Assumptions C12_run_v_faithful.
+
+(* The statement discriminates: with an in-place conversion, ONE read of az leaves radians in the cached azimuth
+   sensor although every returned value is right; and az read again after a second in-place function differs. *)
+Theorem C12_virtual_inplace_refuted :
+  (exists c ops name l,
+    r_lookup name (c_raw c) = Some (EVals l) /\ no_producer name c /\ forallb is_read ops = true /\
+    r_lookup name (c_raw (fst (run_v arith_vf true c ops))) <> Some (EVals l) /\
+    snd (run_v arith_vf true c ops) = snd (run_v arith_vf false c ops)) /\
+  (let c := mkC [("m/azim"%string, EVals [Some 180])] [0] [true] []
+               [mkV ["m/az"%string] ["m/azim"%string] fid_azel; mkV ["m/az2"%string] ["m/az"%string] fid_azel] [] in
+   let ops := [OItem "m/az"%string; OItem "m/az2"%string; OItem "m/az"%string] in
+   (forall r1 r2 r3, snd (run_v arith_vf false c ops) = [r1; r2; r3] -> r1 = r3) /\
+   (exists r1 r2 r3, snd (run_v arith_vf true c ops) = [r1; r2; r3] /\ r1 <> r3)).
+Proof. exact (conj virtual_inplace_refuted inplace_breaks_repeatability). Qed.
+Print Assumptions C12_virtual_inplace_refuted.
+
+(* EXTRACTION NEVER ALTERS THE RAW SAMPLES - public API, all histories: after any sequence of get (any select /
+   extract / keyword properties), cache[name], _set_keep (any keep form), with raw sensors, template sensors and
+   katstore fallbacks interleaved, every getter that existed before holds exactly its samples (the list of getters
+   only grows: the katstore answers are appended). *)
+Theorem C12_api_history_raw_samples :
+  (forall vf ops x, exists tail, c_store (x_c (fst (xrun vf x ops))) = (c_store (x_c x) ++ tail)%list) /\
+  (forall vf ops x gid g, nth_error (c_store (x_c x)) gid = Some g ->
+     nth_error (c_store (x_c (fst (xrun vf x ops)))) gid = Some g).
+Proof. exact (conj xrun_store xrun_raw_samples). Qed.
+Print Assumptions C12_api_history_raw_samples.
